@@ -112,6 +112,31 @@ def tokens_close(sa, sb, rtol=1e-9, atol=1e-12):
     return True
 
 
+class Unchanged(object):
+    """the arrays handed to a function of the tool must come back as they were: its callers pass the arrays the
+    Data cache holds, so a function that writes into its arguments changes every later score (C05-C07, C15)"""
+
+    def __init__(self, *arrs):
+        import numpy as np
+        self.arrs = [a for a in arrs if isinstance(a, np.ndarray)]
+        self.copies = [a.copy() for a in self.arrs]
+
+    def ok(self):
+        import numpy as np
+        return all(a.shape == c.shape and np.array_equal(a, c, equal_nan=True) for a, c in zip(self.arrs, self.copies))
+
+    def tag(self, reply):
+        return reply if self.ok() else "MUTATED-INPUT " + str(reply)
+
+
+def mutated_verdict(op, impl_out):
+    if isinstance(impl_out, str) and impl_out.startswith("MUTATED-INPUT"):
+        return ({"kind": "input-modified", "op": op.split(" ")[0]},
+                "the tool overwrote an array it was given as an argument (its callers hand it the cached arrays, so "
+                "every later score on the same data changes): %s" % op[:300])
+    return None
+
+
 # ------------------------------------------------------------------ Lean
 class BuildResult(object):
     def __init__(self):
